@@ -483,6 +483,7 @@ Record event := {
   ev_start : Z;                (* clock when the query was issued *)
   ev_end : Z;                  (* clock when the reply / failure was observed *)
   ev_left : nat;               (* candidate names not yet tried when the query was issued *)
+  ev_level : Z;                (* the back-off the next re-arm of the round will sleep *)
   ev_obs : oreply              (* what came back *)
 }.
 
@@ -524,7 +525,7 @@ Definition step (sc : nat -> outcome) (c : cfg) (start : Z) (s : st) (e : env)
           let q := {| q_name := s_qname s1; q_class := c_rdclass c; q_type := c_rdtype c |} in
           let '(ob, clock2) := observe (sc (e_pos e)) T clock1 q in
           let ev := {| ev_server := sv_id ns; ev_tcp := tcp; ev_backoff := backoff; ev_timeout := T;
-                       ev_qname := s_qname s1; ev_idx := e_pos e; ev_start := clock1; ev_end := clock2; ev_left := length (s_qnames s1); ev_obs := ob |} in
+                       ev_qname := s_qname s1; ev_idx := e_pos e; ev_start := clock1; ev_end := clock2; ev_left := length (s_qnames s1); ev_level := s_backoff s1; ev_obs := ob |} in
           let e2 := {| e_clock := clock2; e_pos := S (e_pos e); e_trace := e_trace e ++ [ev] |} in
           match query_result c s1 clock2 (Z.of_nat (e_pos e)) ob with
           | QCont s2 => inl (s2, e2)
